@@ -348,6 +348,34 @@ struct CopyTrivMove8
 };
 static_assert(std::is_trivially_copy_constructible_v<CopyTrivMove8> && !std::is_trivially_copyable_v<CopyTrivMove8> && !std::is_trivially_move_constructible_v<CopyTrivMove8>);
 
+// The mirror image: copy constructor and copy assignment are user-provided (and counted), move constructor, move assignment
+// and destructor are trivial. Copies of a container / element / reference have to run the copy operations; taking the
+// triviality of the move operations for triviality of the copy operations copies bytes instead.
+struct Cnt8
+{
+    int32_t v = 0;
+    int32_t tag = 0x3C3C;
+    static inline uint64_t copy_constructions = 0, copy_assignments = 0;
+    static uint64_t copies() { return copy_constructions + copy_assignments; }
+    Cnt8() = default;
+    explicit Cnt8(int32_t x) : v(x) {}
+    Cnt8(const Cnt8& o) noexcept : v(o.v), tag(o.tag) { ++copy_constructions; }
+    Cnt8(Cnt8&&) = default;
+    Cnt8& operator=(const Cnt8& o) noexcept
+    {
+        v = o.v;
+        tag = o.tag;
+        ++copy_assignments;
+        return *this;
+    }
+    Cnt8& operator=(Cnt8&&) = default;
+    friend bool operator==(const Cnt8& l, const Cnt8& r) { return l.v == r.v; }
+    friend bool operator!=(const Cnt8& l, const Cnt8& r) { return l.v != r.v; }
+    friend bool operator<(const Cnt8& l, const Cnt8& r) { return l.v < r.v; }
+};
+static_assert(std::is_trivially_move_constructible_v<Cnt8> && !std::is_trivially_copy_constructible_v<Cnt8> && std::is_trivially_move_assignable_v<Cnt8> &&
+              !std::is_trivially_copy_assignable_v<Cnt8> && std::is_trivially_destructible_v<Cnt8> && !std::is_trivially_copyable_v<Cnt8>);
+
 // Trivially copyable, but unary & is overloaded (a handle type): the address of such an object is std::addressof(x), `&x`
 // is something else.
 struct Amp8
@@ -507,6 +535,14 @@ struct Codec<CopyTrivMove8>
 };
 
 template <>
+struct Codec<Cnt8>
+{
+    static Cnt8 make(int64_t v) { return Cnt8{static_cast<int32_t>(v)}; }
+    static int64_t read(const Cnt8& x) { return x.tag == 0x3C3C ? x.v : -776; }
+    static int64_t moved(int64_t v) { return v; }  // the move operations are trivial: the source keeps its value
+};
+
+template <>
 struct Codec<Amp8>
 {
     static Amp8 make(int64_t v)
@@ -633,6 +669,7 @@ const char* type_name()
     else if constexpr (std::is_same_v<T, Mod8>) return "M8";
     else if constexpr (std::is_same_v<T, CopyTrivMove8>) return "Ctm8";
     else if constexpr (std::is_same_v<T, Amp8>) return "Amp8";
+    else if constexpr (std::is_same_v<T, Cnt8>) return "Cnt8";
     else if constexpr (std::is_same_v<T, BasePtr>) return "bptr";
     else if constexpr (std::is_same_v<T, B5>) return "B5";
     else if constexpr (std::is_same_v<T, B6>) return "B6";
